@@ -81,6 +81,34 @@ Definition legalb (k : nat) (out : list stmt) : bool :=
   okt (forallb (okb k false false false)) (TLit out).
 
 
+(* ---- target code the link theorems (Link.v, LinkMachine.v) apply to: nesting depth below k, no native Yield statement,
+   init / post statements that are atoms ---- *)
+Definition lko (o : option stmt) : bool := match o with None | Some (SAtom _) => true | _ => false end.
+
+Fixpoint lkx (okl : list stmt -> bool) (e : sexp) : bool :=
+  match e with
+  | XBind _ (TLit l) | XDelay (TLit l) => okl l
+  | XBind _ (TSig x) | XDelay (TSig x) => is_sig x
+  | XCombine a b => lkx okl a && lkx okl b
+  | XFor _ p body => lko p && lkx okl body
+  | _ => true
+  end.
+
+Fixpoint lk (k : nat) (s : stmt) {struct k} : bool :=
+  match k with 0 => false | S k =>
+    match s with
+    | SYield _ => false
+    | SBlock b => forallb (lk k) b
+    | SIf i _ t e => lko i && forallb (lk k) t &&
+                     match e with ENone => true | EElse b => forallb (lk k) b | EElif x => lk k x end
+    | SSwitch i _ cs => lko i && forallb (fun lb => forallb (lk k) (snd lb)) cs
+    | Syntax.SFor i _ p b => lko i && lko p && forallb (lk k) b
+    | SRet e => lkx (forallb (lk k)) e
+    | _ => true
+    end
+  end.
+
+
 (* ---- statements covered by the pass2 simulation proof (RwCorrect.v) ---- *)
 Definition init_ok (i : option stmt) : bool :=
   match i with None => true | Some (SAtom _) => true | _ => false end.
@@ -164,9 +192,10 @@ Definition c01_hyps (body : list stmt) : bool :=
 
 (* classification used by the correspondence check: 0 the model rejects the program; 1 it
    accepts but its output is not legal in the sense of [legalb]; 2 legal but outside the
-   fragment the C01 theorem covers; 3 all side conditions of the C01 theorem hold *)
+   fragment the C01 theorem covers; 3 all side conditions of the C01 theorem hold; 4 also those of the
+   end-to-end theorem down to the machine model of seq.go (Link.v: no native Yield left in the output) *)
 Definition hyp_code (body : list stmt) : nat :=
   match rewrite body with
   | Err _ => 0
-  | OK out => if legalb KS out then (if c01_hyps body then 3 else 2) else 1
+  | OK out => if legalb KS out then (if c01_hyps body then (if forallb (lk KS) out then 4 else 3) else 2) else 1
   end.
